@@ -5,7 +5,7 @@
      faithful = /repo as it is         -> the statement is REFUTED three times (three recorded defects)
      fixed    = with build/proposed-fixes/C12-1..3.diff -> C12_main, the full statement, is proved.
    `table_after fx mt prod ops` is the webhooks table after ANY sequence of register(bearer|custom|none) /
-   delete / notify(per-url outcome) / restart / rejected-request operations from the empty table; `prod` says whether the
+   delete / notify(per-url outcome) / restart (keeping or changing max_tries) / rejected-request operations from the empty table; `prod` says whether the
    production HTTP client or an injected one performs the calls. *)
 From Coq Require Import ZArith List Bool.
 From BHS Require Import Webhook WebhookProofs WebhookOracleProofs.
@@ -13,13 +13,13 @@ Import ListNotations.
 Open Scope Z_scope.
 
 (* The full statement, for every max_tries >= 1 and every operation/outcome sequence (clauses: Webhook.v). *)
-Theorem C12_main : forall (mt : Z) (prod : bool) (ops : list op), 1 <= mt ->
+Theorem C12_main : forall (mt : Z) (prod : bool) (ops : list op), 1 <= mt -> Forall (limit_kept mt) ops ->
   let tb := table_after_fixed mt prod ops in
   table_ok mt tb /\ notify_clause fixed mt prod tb /\ register_clause fixed tb /\ delete_clause tb /\ get_clause fixed tb.
 Proof. exact C12_statement_fixed. Qed.
 
 (* The notify clause written out: one event from any reachable table. *)
-Theorem C12_main_notify : forall (mt : Z) (prod : bool) (ops : list op), 1 <= mt ->
+Theorem C12_main_notify : forall (mt : Z) (prod : bool) (ops : list op), 1 <= mt -> Forall (limit_kept mt) ops ->
   forall (f : Z -> outcome) (now u : Z),
   let tb := table_after_fixed mt prod ops in
   let tb' := fst (notify_fixed mt prod f now tb) in
@@ -39,10 +39,10 @@ Theorem C12_main_notify : forall (mt : Z) (prod : bool) (ops : list op), 1 <= mt
     else (* inactive: not called, unchanged *) posts_to u ps = [] /\ find_row u tb' = Some r
   | None => (* deleted / never registered: not called *) posts_to u ps = [] /\ find_row u tb' = None
   end.
-Proof. exact (fun mt prod ops H => proj1 (proj2 (C12_statement_fixed mt prod ops H))). Qed.
+Proof. exact (fun mt prod ops H Hk => proj1 (proj2 (C12_statement_fixed mt prod ops H Hk))). Qed.
 
 (* The count never exceeds max_tries and the flag is exactly "count below max_tries", in every reachable table. *)
-Theorem C12_invariant : forall (mt : Z) (prod : bool) (ops : list op), 1 <= mt ->
+Theorem C12_invariant : forall (mt : Z) (prod : bool) (ops : list op), 1 <= mt -> Forall (limit_kept mt) ops ->
   let tb := table_after_fixed mt prod ops in
   NoDup (map r_url tb) /\
   Forall (fun r => 0 <= r_errors r <= mt /\ (r_active r = false <-> r_errors r = mt)) tb.
@@ -60,9 +60,53 @@ Theorem C12_failing_streak : forall mt prod evs tb u r, 1 <= mt -> table_ok mt t
     Z.of_nat (length (posts_to u (snd (notify_seq fixed mt prod evs tb)))) = Z.min n (mt - r_errors r).
 Proof. exact failing_streak_fixed. Qed.
 
+(* ---------- restarts that CHANGE webhook.max_tries (op OpRestartMt m) ----------
+   C12_main above is about histories under one limit (limit_kept: restarts keep it).  The repaired model remembers no
+   limit anywhere - it is an argument of each notify step - so for histories in which restarts change the limit the same
+   clauses hold with the limit IN FORCE (the one of the last restart), for webhooks registered before or after it; what
+   no longer holds is the invariant "count <= limit" (a lowered limit may lie below a count already reached), hence the
+   deactivation condition reads "the new count is at or above the limit in force". *)
+Theorem C12_main_any_limit : forall (mt : Z) (prod : bool) (ops : list op),
+  let tb := table_after_fixed mt prod ops in
+  NoDup (map r_url tb) /\ notify_clause_any fixed (limit_after mt ops) prod tb /\
+  register_clause fixed tb /\ delete_clause tb /\ get_clause fixed tb.
+Proof. exact C12_statement_any_fixed. Qed.
+
+(* n consecutive failures under the limit mt, whatever the count e the webhook starts from:
+   k = min(n, max(1, mt - e)) POSTs, count e + k, still active iff n = 0 or e + n < mt. *)
+Theorem C12_failing_streak_any_limit : forall mt prod evs tb u r, NoDup (map r_url tb) ->
+  find_row u tb = Some r -> r_active r = true ->
+  Forall (fun ev => is_ok (fst ev u) = false) evs ->
+  let n := Z.of_nat (length evs) in
+  let k := Z.min n (Z.max 1 (mt - r_errors r)) in
+  exists r', find_row u (fst (notify_seq fixed mt prod evs tb)) = Some r' /\
+    r_errors r' = r_errors r + k /\
+    (r_active r' = true <-> (n = 0 \/ r_errors r + n < mt)) /\
+    r_hdr r' = r_hdr r /\ r_tok r' = r_tok r /\
+    Z.of_nat (length (posts_to u (snd (notify_seq fixed mt prod evs tb)))) = k.
+Proof. exact failing_streak_any. Qed.
+
+(* a failing streak that straddles a restart changing the limit mt1 -> mt2 (n1 failures before, still active; n2 after):
+   after the restart only mt2 counts for a webhook registered before it. *)
+Theorem C12_failing_streak_across_restart : forall mt1 mt2 prod evs1 evs2 tb u r, NoDup (map r_url tb) ->
+  find_row u tb = Some r -> r_active r = true ->
+  Forall (fun ev => is_ok (fst ev u) = false) evs1 -> Forall (fun ev => is_ok (fst ev u) = false) evs2 ->
+  let n1 := Z.of_nat (length evs1) in
+  let n2 := Z.of_nat (length evs2) in
+  let e := r_errors r in
+  e + n1 < mt1 -> 0 <= e ->
+  let tb1 := fst (notify_seq fixed mt1 prod evs1 tb) in
+  let st2 := notify_seq fixed mt2 prod evs2 (fst (fst (step fixed mt1 prod 0 (OpRestartMt mt2) tb1))) in
+  let k2 := Z.min n2 (Z.max 1 (mt2 - (e + n1))) in
+  exists r', find_row u (fst st2) = Some r' /\
+    r_errors r' = e + n1 + k2 /\
+    (r_active r' = true <-> (n2 = 0 \/ e + n1 + n2 < mt2)) /\
+    Z.of_nat (length (posts_to u (snd st2))) = k2.
+Proof. exact failing_streak_across_restart. Qed.
+
 (* The executable spec oracle that judges the implementation's observed behaviour step by step raises no alarm
-   on any run of the repaired model (urls 0..3 = the ones the harness queries after every step). *)
-Theorem C12_oracle_accepts_repaired : forall mt prod ops, 1 <= mt ->
+   on any run of the repaired model, whatever the limit and however restarts change it (urls 0..3 = the ones the harness queries after every step). *)
+Theorem C12_oracle_accepts_repaired : forall mt prod ops,
   Forall (fun o => match o with OpRegister u _ _ _ => In u universe | _ => True end) ops ->
   oracle mt prod ops (fst (run_fixed mt prod ops)) = [].
 Proof. exact oracle_accepts_fixed. Qed.
@@ -92,6 +136,9 @@ Print Assumptions C12_main.
 Print Assumptions C12_main_notify.
 Print Assumptions C12_invariant.
 Print Assumptions C12_failing_streak.
+Print Assumptions C12_main_any_limit.
+Print Assumptions C12_failing_streak_any_limit.
+Print Assumptions C12_failing_streak_across_restart.
 Print Assumptions C12_oracle_accepts_repaired.
 Print Assumptions C12_maxtries_refuted.
 Print Assumptions C12_lastemit_refuted.
